@@ -1,2 +1,171 @@
-(** Placeholder until the proofs land. *)
-Require Import JF.Model.Periodic.
+(** * Props/C15.v — Periodic wrapping and minimum-image separations (property C15).
+
+    Model: [JF.Model.Periodic] (binary64; Python's float [%] transcribed in [JF.Base.PyFloat]).
+    [wrap x L]  = correct_position_entry   (current code, i.e. with the repair of finding F1),
+    [sep s L]   = correct_separation_entry ((s + L/2) % L - L/2 with L/2 = fl(L / 2.0)),
+    [RN] rounding to nearest-even, [ulp64] unit in the last place of binary64.
+    [None] models Python's ZeroDivisionError (impossible for L > 0). *)
+From Coq Require Import ZArith Bool List Reals Lia Lra.
+From Flocq Require Import Core.Core IEEE754.BinarySingleNaN.
+Require Import JF.Base.F64 JF.Base.PyFloat JF.Model.Periodic JF.Proofs.F64Facts JF.Proofs.PeriodicProofs.
+Import ListNotations.
+Local Open Scope R_scope.
+
+(** ** Corrected positions lie in the half-open range [0, L) — for every finite entry and every
+    finite positive system length (including subnormal ones). *)
+Theorem wrap_range : forall x L : f64,
+  ffinite x = true -> ffinite L = true -> 0 < B2R L ->
+  exists w, wrap x L = Some w /\ ffinite w = true /\ 0 <= B2R w < B2R L.
+Proof. exact PeriodicProofs.wrap_range_ex. Qed.
+Print Assumptions wrap_range.
+Example wrap_range_nonvacuous :
+  (ffinite p_m025 = true /\ ffinite fone = true /\ 0 < B2R fone) /\
+  match wrap p_m025 fone with Some w => feqb_bits w p_075 | None => false end = true.
+Proof. split; [exact sample_wrap_hyps|vm_compute; reflexivity]. Qed.
+
+(** Documentation of the repaired finding F1: Python's float modulo alone returns L for a tiny
+    negative entry (x = -1e-17, L = 1.0); [wrap] maps this to 0.0. *)
+Theorem wrap_raw_hits_L :
+  exists x L : f64, ffinite x = true /\ ffinite L = true /\ 0 < B2R L /\
+    match wrap_raw x L with Some m => feqb_bits m L | None => false end = true /\
+    match wrap x L with Some w => feqb_bits w fzero | None => false end = true.
+Proof. exact PeriodicProofs.wrap_raw_hits_L. Qed.
+Print Assumptions wrap_raw_hits_L.
+Example wrap_raw_hits_L_witness :
+  match wrap_raw f_m1em17 fone with Some m => feqb_bits m fone | None => false end = true.
+Proof. vm_compute; reflexivity. Qed.
+
+(** ** The corrected position is congruent to the entry modulo L: exactly for non-negative
+    entries, to within half a unit in the last place of L for negative ones (one rounded addition). *)
+Theorem wrap_congruent : forall x L : f64,
+  ffinite x = true -> ffinite L = true -> 0 < B2R L ->
+  exists (w : f64) (k : Z), wrap x L = Some w /\
+    Rabs (B2R w - (B2R x - IZR k * B2R L)) <= / 2 * ulp64 (B2R L) /\
+    (0 <= B2R x -> B2R w = B2R x - IZR k * B2R L).
+Proof. exact PeriodicProofs.wrap_congruent_ex. Qed.
+Print Assumptions wrap_congruent.
+Example wrap_congruent_nonvacuous : ffinite p_m025 = true /\ ffinite fone = true /\ 0 < B2R fone.
+Proof. exact sample_wrap_hyps. Qed.
+
+(** The representative in [0, L) is unique. *)
+Theorem representative_unique : forall (L a b : R) (k : Z),
+  0 < L -> 0 <= a < L -> 0 <= b < L -> a = b - IZR k * L -> a = b.
+Proof. exact PeriodicProofs.representative_unique. Qed.
+Print Assumptions representative_unique.
+Example representative_unique_nonvacuous : 0 < 1 /\ 0 <= / 2 < 1 /\ / 2 = / 2 - IZR 0 * 1.
+Proof. simpl; lra. Qed.
+
+(** ** Correcting a corrected position changes nothing (same float, bit for bit). *)
+Theorem wrap_idempotent : forall x L w : f64,
+  ffinite x = true -> ffinite L = true -> 0 < B2R L ->
+  wrap x L = Some w -> wrap w L = Some w.
+Proof. exact PeriodicProofs.wrap_idempotent. Qed.
+Print Assumptions wrap_idempotent.
+Example wrap_idempotent_nonvacuous :
+  (ffinite p_m025 = true /\ ffinite fone = true /\ 0 < B2R fone) /\
+  match wrap p_m025 fone with Some w => feqb_bits w p_075 | None => false end = true /\
+  match wrap p_075 fone with Some w => feqb_bits w p_075 | None => false end = true.
+Proof. split; [exact sample_wrap_hyps|split; vm_compute; reflexivity]. Qed.
+
+(** ** Corrected separations.  Side conditions: L/2 is computed exactly (true for every
+    L >= 2^-1021, see [half_exact]) and |s| + L <= 2^1023 (no overflow in s + L/2). *)
+Theorem half_exact : forall L : f64, ffinite L = true -> bpow radix2 (-1021) <= B2R L ->
+  B2R (half L) = B2R L / 2.
+Proof. exact PeriodicProofs.half_exact. Qed.
+Print Assumptions half_exact.
+Example half_exact_nonvacuous : ffinite fone = true /\ bpow radix2 (-1021) <= B2R fone.
+Proof. split; [apply fone_finite|rewrite fone_R; apply bpow_m1021_le_1]. Qed.
+
+Theorem sep_bound : forall s L : f64,
+  ffinite s = true -> ffinite L = true -> 0 < B2R L ->
+  B2R (half L) = B2R L / 2 -> Rabs (B2R s) + B2R L <= bpow radix2 1023 ->
+  exists d, sep s L = Some d /\ ffinite d = true /\ Rabs (B2R d) <= B2R L / 2.
+Proof. exact PeriodicProofs.sep_bound_ex. Qed.
+Print Assumptions sep_bound.
+Example sep_bound_nonvacuous :
+  (ffinite p_075 = true /\ ffinite fone = true /\ 0 < B2R fone /\
+   B2R (half fone) = B2R fone / 2 /\ Rabs (B2R p_075) + B2R fone <= bpow radix2 1023) /\
+  match sep p_075 fone with Some d => feqb_bits d p_m025 | None => false end = true.
+Proof. split; [exact sample_sep_hyps|vm_compute; reflexivity]. Qed.
+
+(** Domain documentation: for a subnormal L with an odd number of units L/2 is not a float and
+    the bound fails (L = 3 * 2^-1074, s = 2^-1074 gives -2 * 2^-1074). *)
+Theorem sep_bound_tiny_L_refuted :
+  exists s L : f64, ffinite s = true /\ ffinite L = true /\ 0 < B2R L /\
+    match sep s L with Some d => feqb_bits d (fopp f_u2) | None => false end = true /\
+    B2R L / 2 < Rabs (B2R (fopp f_u2)).
+Proof. exact PeriodicProofs.sep_bound_tiny_L_refuted. Qed.
+Print Assumptions sep_bound_tiny_L_refuted.
+Example sep_bound_tiny_L_witness :
+  match sep f_u1 f_u3 with Some d => feqb_bits d (fopp f_u2) | None => false end = true.
+Proof. vm_compute; reflexivity. Qed.
+
+(** Congruence of the corrected separation: three roundings (the sum s + L/2, the modulo's
+    possible addition of L, the final subtraction); explicit constant:
+    ulp(s + L/2)/2 + ulp(L). *)
+Theorem sep_congruent : forall s L : f64,
+  ffinite s = true -> ffinite L = true -> 0 < B2R L ->
+  B2R (half L) = B2R L / 2 -> Rabs (B2R s) + B2R L <= bpow radix2 1023 ->
+  exists (d : f64) (k : Z), sep s L = Some d /\
+    Rabs (B2R d - (B2R s - IZR k * B2R L)) <= / 2 * ulp64 (B2R s + B2R L / 2) + ulp64 (B2R L).
+Proof. exact PeriodicProofs.sep_congruent_ex. Qed.
+Print Assumptions sep_congruent.
+Example sep_congruent_nonvacuous :
+  ffinite p_075 = true /\ ffinite fone = true /\ 0 < B2R fone /\
+  B2R (half fone) = B2R fone / 2 /\ Rabs (B2R p_075) + B2R fone <= bpow radix2 1023.
+Proof. exact sample_sep_hyps. Qed.
+
+(** ** Vectors: [correct_position] and [separation_vector] of the hypercubic class. *)
+Theorem correct_position_range : forall (L : f64) (pos out : list f64),
+  ffinite L = true -> 0 < B2R L -> Forall (fun x => ffinite x = true) pos ->
+  cubic_correct_position L pos = Some out ->
+  length out = length pos /\ Forall (in_box L) out.
+Proof. exact PeriodicProofs.cubic_correct_position_range. Qed.
+Print Assumptions correct_position_range.
+Example correct_position_range_nonvacuous :
+  match cubic_correct_position fone [p_m025; f_m1em17] with
+  | Some [a; b] => feqb_bits a p_075 && feqb_bits b fzero | _ => false end = true.
+Proof. vm_compute; reflexivity. Qed.
+
+Theorem correct_position_idempotent : forall (L : f64) (pos out : list f64),
+  ffinite L = true -> 0 < B2R L -> Forall (fun x => ffinite x = true) pos ->
+  cubic_correct_position L pos = Some out -> cubic_correct_position L out = Some out.
+Proof. exact PeriodicProofs.cubic_correct_position_idempotent. Qed.
+Print Assumptions correct_position_idempotent.
+Example correct_position_idempotent_nonvacuous :
+  exists out, cubic_correct_position fone [p_m025; f_m1em17] = Some out.
+Proof.
+  apply cubic_correct_position_defined; [apply fone_finite|rewrite fone_R; lra|].
+  repeat constructor.
+Qed.
+
+(** Separation vector of two positions in the box: [dimension] components, each of magnitude at
+    most L/2. *)
+Theorem separation_vector_bound : forall (dim : nat) (L : f64) (ref tgt out : list f64),
+  ffinite L = true -> 0 < B2R L -> B2R (half L) = B2R L / 2 -> B2R L <= bpow radix2 1022 ->
+  length ref = dim -> length tgt = dim -> Forall (in_box L) ref -> Forall (in_box L) tgt ->
+  cubic_separation_vector dim L ref tgt = Some out ->
+  length out = dim /\ Forall (fun d => ffinite d = true /\ Rabs (B2R d) <= B2R L / 2) out.
+Proof. exact PeriodicProofs.cubic_separation_vector_bound. Qed.
+Print Assumptions separation_vector_bound.
+Example separation_vector_bound_nonvacuous :
+  (Forall (in_box fone) [p_075; p_025] /\ Forall (in_box fone) [p_025; p_075]) /\
+  match cubic_separation_vector 2 fone [p_075; p_025] [p_025; p_075] with
+  | Some [a; b] => feqb_bits a (of_bits 0xBFE0000000000000) && feqb_bits b (of_bits 0xBFE0000000000000)
+  | _ => false end = true.
+Proof. split; [exact sample_in_box|vm_compute; reflexivity]. Qed.
+
+(** ** The cuboid class with all lengths equal is the cubic class (every method). *)
+Theorem cubic_eq_cuboid : forall (L : f64) (n : nat),
+  (forall x i, (i < n)%nat -> cuboid_wrap_entry (repeat L n) x i = wrap x L) /\
+  (forall s i, (i < n)%nat -> cuboid_sep_entry (repeat L n) s i = sep s L) /\
+  (forall x i, (i < n)%nat -> cuboid_next_image (repeat L n) x i = Some (cubic_next_image L x i)) /\
+  (forall pos, (length pos <= n)%nat -> cuboid_correct_position (repeat L n) pos = cubic_correct_position L pos) /\
+  (forall v, (length v <= n)%nat -> cuboid_correct_separation (repeat L n) v = cubic_correct_separation L v) /\
+  (forall ref tgt, cuboid_separation_vector (repeat L n) ref tgt = cubic_separation_vector n L ref tgt).
+Proof. exact PeriodicProofs.cubic_eq_cuboid. Qed.
+Print Assumptions cubic_eq_cuboid.
+Example cubic_eq_cuboid_nonvacuous :
+  match cuboid_correct_position (repeat fone 2) [p_m025; f_m1em17] with
+  | Some [a; b] => feqb_bits a p_075 && feqb_bits b fzero | _ => false end = true.
+Proof. vm_compute; reflexivity. Qed.
